@@ -15,6 +15,7 @@
 //! parallel on a small pool of OS threads.
 use rustrtc::media::frame::VideoFrame;
 use rustrtc::transports::sctp::{DataChannel, DataChannelConfig, DataChannelEvent};
+use rustrtc::SdpCompatibilityMode;
 use rustrtc::{
     DisconnectReason, IceConnectionState, MediaKind, PeerConnection, PeerConnectionState, RtcConfiguration,
     RtpCodecParameters, SdpType, SessionDescription, SignalingState, TransceiverDirection, TransportMode,
@@ -44,6 +45,29 @@ fn cfg(mode: TransportMode) -> RtcConfiguration {
     c.transport_mode = mode;
     c.stun_timeout = Duration::from_secs(1);
     c
+}
+
+/// legacy SIP style: one transport address per m= section (no BUNDLE), so audio + video use a primary and a
+/// secondary media transport (each with its own ICE transport and RTP/RTCP sockets)
+fn cfg_sip(mode: TransportMode) -> RtcConfiguration {
+    let mut c = cfg(mode);
+    c.sdp_compatibility = SdpCompatibilityMode::LegacySip;
+    c
+}
+/// every UDP port the local description advertises (m= lines and a=rtcp), i.e. what the peer is told to send to
+fn sdp_ports(pc: &PeerConnection) -> Vec<u16> {
+    let mut v = vec![];
+    if let Some(d) = pc.local_description() {
+        for m in &d.media_sections {
+            if m.port > 9 { v.push(m.port); }
+            for a in &m.attributes {
+                if a.key == "rtcp" {
+                    if let Some(p) = a.value.as_ref().and_then(|x| x.split_whitespace().next()).and_then(|x| x.parse::<u16>().ok()) { if p > 9 { v.push(p); } }
+                }
+            }
+        }
+    }
+    v
 }
 
 // ------------------------------------------------------------------------------------ relay
@@ -214,7 +238,9 @@ enum Phase { Created, Gathering, OfferSet, Checking, DtlsHandshaking, DtlsConnec
     /// channels open and the PEER has opened one more channel in-band (DCEP): A learned of it through pc.recv()
     PeerChannelOpen,
     /// three negotiated channels open (several senders can park at once: a channel's send lock serialises its own)
-    ThreeChannelsOpen }
+    ThreeChannelsOpen,
+    /// SDES-SRTP / RTP mode, legacy SIP SDP, audio + video (secondary media transport): offer made / pair flowing
+    SipSrtpOffer, SipRtpOffer, SipSrtpConnected, SipRtpConnected }
 impl Phase {
     fn model(self) -> &'static str {
         match self {
@@ -226,11 +252,17 @@ impl Phase {
             Phase::ChannelsOpen | Phase::MediaFlowing => "PhChannelsOpen",
             Phase::JustConnected | Phase::JustConnectedMedia | Phase::ThreeChannelsOpen => "-",
             Phase::PeerChannelOpen => "PhTwoChannelsOpen",
+            Phase::SipSrtpOffer | Phase::SipRtpOffer => "-",
+            Phase::SipSrtpConnected | Phase::SipRtpConnected => "PhDirectConnected",
             Phase::RtpFlowing => "PhDirectConnected",
         }
     }
-    fn has_channel(self) -> bool { !matches!(self, Phase::DtlsConnected | Phase::RtpFlowing | Phase::JustConnectedMedia) }
-    fn mode(self) -> TransportMode { if matches!(self, Phase::RtpCreated | Phase::RtpFlowing) { TransportMode::Rtp } else { TransportMode::WebRtc } }
+    fn is_sip(self) -> bool { matches!(self, Phase::SipSrtpOffer | Phase::SipRtpOffer | Phase::SipSrtpConnected | Phase::SipRtpConnected) }
+    fn has_channel(self) -> bool { !matches!(self, Phase::DtlsConnected | Phase::RtpFlowing | Phase::JustConnectedMedia) && !self.is_sip() }
+    fn mode(self) -> TransportMode {
+        if matches!(self, Phase::RtpCreated | Phase::RtpFlowing | Phase::SipRtpOffer | Phase::SipRtpConnected) { TransportMode::Rtp }
+        else if matches!(self, Phase::SipSrtpOffer | Phase::SipSrtpConnected) { TransportMode::Srtp } else { TransportMode::WebRtc }
+    }
 }
 #[derive(Clone, Copy, Debug, PartialEq, Eq, Hash)]
 enum Ev {
@@ -318,6 +350,9 @@ struct Outcome {
     extra_final: Vec<(usize, usize, usize)>,
     /// fates of the additional parked senders (channels 1, 2): 1 err 2 ok 3 parked
     senders_extra: Vec<u8>,
+    /// ports of A (candidate + every port of its local SDP) still bound after close() while the handle is kept
+    a_ports: Vec<u16>,
+    a_ports_bound_after_close: Vec<u16>,
     sender: u8, // 0 none 1 err 2 ok 3 parked
     sender_latency_ms: Option<f64>,
     calls: Vec<(String, Option<String>, f64)>, // name, result (None = did not return within the bound), ms
@@ -352,6 +387,8 @@ struct Setup {
     media: Option<tokio::task::JoinHandle<()>>,
     extra: Vec<(Arc<DataChannel>, Arc<ChanCount>)>,
     extra_b: Vec<Arc<DataChannel>>,
+    /// the UDP ports A itself has bound (selected candidate + every port its local SDP advertises)
+    a_ports: Vec<u16>,
 }
 
 async fn negotiate(a: &PeerConnection, b: &PeerConnection, relay_mode: Option<u8>) -> Result<Option<Relay>, String> {
@@ -396,11 +433,11 @@ fn add_media(a: &PeerConnection, b: &PeerConnection) -> tokio::task::JoinHandle<
 /// bring a fresh pair to the phase; Err = the phase could not be reached (retried by the caller)
 async fn setup(phase: Phase, ev: Ev) -> Result<Setup, String> {
     let mode = phase.mode();
-    let mut ca_cfg = cfg(mode.clone());
+    let mut ca_cfg = if phase.is_sip() { cfg_sip(mode.clone()) } else { cfg(mode.clone()) };
     if ev.blocked() { ca_cfg.sctp_max_buffered_amount = 4096; }
     let a = PeerConnection::new(ca_cfg);
     let wa = Watch::new(&a);
-    let mut s = Setup { a: None, b: None, wa, dca: None, dcb: None, ca: None, cb: None, hs: vec![], relay: None, hole: None, ports: vec![], media: None, extra: vec![], extra_b: vec![] };
+    let mut s = Setup { a: None, b: None, wa, dca: None, dcb: None, ca: None, cb: None, hs: vec![], relay: None, hole: None, ports: vec![], media: None, extra: vec![], extra_b: vec![], a_ports: vec![] };
     let with_dc = phase.has_channel();
     if with_dc {
         let dca = a.create_data_channel("neg", Some(dc_cfg())).map_err(|e| e.to_string())?;
@@ -410,6 +447,24 @@ async fn setup(phase: Phase, ev: Ev) -> Result<Setup, String> {
     match phase {
         Phase::Created | Phase::RtpCreated => {}
         Phase::Gathering => { let _ = a.create_offer().await.map_err(|e| e.to_string())?; }
+        Phase::SipSrtpOffer | Phase::SipRtpOffer => {
+            a.add_transceiver(MediaKind::Audio, TransceiverDirection::SendRecv);
+            a.add_transceiver(MediaKind::Video, TransceiverDirection::SendRecv);
+            let o = local_offer(&a).await?;
+            if o.media_sections.len() != 2 || o.media_sections[0].port == o.media_sections[1].port { return Err("legacy-SIP offer is not two sections on two ports".into()); }
+        }
+        Phase::SipSrtpConnected | Phase::SipRtpConnected => {
+            let b = PeerConnection::new(cfg_sip(mode.clone()));
+            for pc in [&a, &b] {
+                pc.add_transceiver(MediaKind::Audio, TransceiverDirection::SendRecv);
+                pc.add_transceiver(MediaKind::Video, TransceiverDirection::SendRecv);
+            }
+            if let Err(e) = negotiate(&a, &b, None).await { s.b = Some(b); s.a = Some(a); teardown_quiet(s).await; return Err(e); }
+            let (r, _) = timed(async { tokio::try_join!(a.wait_for_connected(), b.wait_for_connected()) }, Duration::from_secs(8)).await;
+            if !matches!(r, Some(Ok(_))) { s.b = Some(b); s.a = Some(a); teardown_quiet(s).await; return Err("legacy-SIP pair did not connect".into()); }
+            s.ports.extend(sdp_ports(&b));
+            s.b = Some(b);
+        }
         Phase::OfferSet => { let _ = local_offer(&a).await?; }
         Phase::Checking => {
             let b = PeerConnection::new(cfg(mode.clone()));
@@ -534,7 +589,8 @@ async fn setup(phase: Phase, ev: Ev) -> Result<Setup, String> {
             s.b = Some(b);
         }
     }
-    if let Some(p) = cand_addr(&a) { s.ports.push(p.port()); }
+    if let Some(p) = cand_addr(&a) { s.ports.push(p.port()); s.a_ports.push(p.port()); }
+    for p in sdp_ports(&a) { if !s.a_ports.contains(&p) { s.a_ports.push(p); } if !s.ports.contains(&p) { s.ports.push(p); } }
     s.a = Some(a);
     Ok(s)
 }
@@ -573,6 +629,8 @@ async fn run_scenario(sc: Scenario) -> Outcome {
     let Some(mut s) = s else { out.setup_failed = Some(last_err); return out; };
     out.ports = s.ports.clone();
     let socks = inodes_of(&s.ports);
+    out.a_ports = s.a_ports.clone();
+    let a_socks = inodes_of(&s.a_ports);
     let ev = sc.ev;
     let a = s.a.take().unwrap();
     // pending calls started before the event
@@ -770,6 +828,15 @@ async fn run_scenario(sc: Scenario) -> Outcome {
         }
         for a in aborts { a.abort(); }
     }
+    // close() with the handle still held: everything A had bound must be gone (not only after the later drop)
+    if a_opt.is_some() && ev.app_closed() {
+        let _ = wait_until2(|| {
+            let now: std::collections::HashSet<u64> = udp_sockets().into_iter().map(|(_, i)| i).collect();
+            a_socks.iter().all(|(_, i)| !now.contains(i))
+        }, CALL_BOUND).await;
+        let now: std::collections::HashSet<u64> = udp_sockets().into_iter().map(|(_, i)| i).collect();
+        out.a_ports_bound_after_close = a_socks.iter().filter(|(_, i)| now.contains(i)).map(|(p, _)| *p).collect();
+    }
     // ------------------------------------------------------------------ calls after the event
     if let Some(a) = a_opt.as_ref() {
         let closed = last.peer == PeerConnectionState::Closed && last.sig == SignalingState::Closed;
@@ -917,6 +984,9 @@ fn judge(sc: &Scenario, o: &Outcome) -> (String, Option<String>, serde_json::Val
     if ev.blocked() && !ev.drops_a() && o.sender != 1 {
         fails.push(format!("sender parked on a full window {} after the association died ({:?})", match o.sender { 3 => "is still parked", 2 => "never blocked (scenario invalid)", _ => "vanished" }, ev));
     }
+    if !o.a_ports_bound_after_close.is_empty() {
+        fails.push(format!("UDP ports {:?} (of {:?}: selected candidate + every port of the local SDP) still bound {} ms after close() while the application keeps its handle", o.a_ports_bound_after_close, o.a_ports, ms(CALL_BOUND + long_wait())));
+    }
     // O6: release
     if o.tasks_after_release != 0 {
         fails.push(format!("{} task(s) of the connection pair still alive {} ms after the final close + drop (first bound {} ms, re-observed)", o.tasks_after_release, ms(RELEASE_BOUND + long_wait()), ms(RELEASE_BOUND)));
@@ -938,7 +1008,7 @@ fn judge(sc: &Scenario, o: &Outcome) -> (String, Option<String>, serde_json::Val
         "sender_release_ms": o.sender_latency_ms,
         "calls": o.calls.iter().map(|(n, r, t)| json!({"call": n, "result": r, "ms": t})).collect::<Vec<_>>(),
         "settle_ms": o.settle_ms, "tasks_before_event": o.tasks_before_event, "tasks_after_release": o.tasks_after_release,
-        "release_ms": o.release_ms, "failed_in_parallel_pass_not_rerun": o.unconfirmed, "reobserved": o.reobserved || !slow.is_empty(), "slow_observations": slow, "setup_attempts": o.setup_attempts, "udp_ports": o.ports, "udp_ports_still_bound": o.ports_still_bound, "notes": o.notes,
+        "release_ms": o.release_ms, "failed_in_parallel_pass_not_rerun": o.unconfirmed, "reobserved": o.reobserved || !slow.is_empty(), "slow_observations": slow, "setup_attempts": o.setup_attempts, "udp_ports": o.ports, "udp_ports_of_A_incl_local_sdp": o.a_ports, "udp_ports_of_A_still_bound_after_close_with_handle_kept": o.a_ports_bound_after_close, "udp_ports_still_bound": o.ports_still_bound, "notes": o.notes,
     });
     let fail = if fails.is_empty() { None } else { Some(fails.join("; ")) };
     (term, fail, desc, true)
@@ -953,7 +1023,7 @@ async fn uut_case(cause: &'static str) -> (serde_json::Value, Option<String>) {
     c.sctp_max_buffered_amount = 4096;
     let dcc = DataChannelConfig { label: "x".into(), negotiated: Some(0), ordered: true, ..Default::default() };
     let dcc2 = DataChannelConfig { label: "y".into(), negotiated: Some(1), ordered: true, ..Default::default() };
-    let u = Uut::start(UutOpts { config: c, channels: vec![(0, dcc), (1, dcc2)], peer_rwnd: 1500, ..Default::default() }).await;
+    let mut u = Uut::start(UutOpts { config: c, channels: vec![(0, dcc), (1, dcc2)], peer_rwnd: 1500, ..Default::default() }).await;
     let sctp = u.sctp.clone();
     let sender = tokio::spawn(async move {
         let mut n = 0;
@@ -965,6 +1035,8 @@ async fn uut_case(cause: &'static str) -> (serde_json::Value, Option<String>) {
     tokio::time::sleep(Duration::from_millis(250)).await;
     let parked = !sender.is_finished();
     let t0 = Instant::now();
+    let mut shutdown_note: Option<String> = None;
+    let mut shutdown_unacked = false;
     match cause {
         "abort" => u.inject_chunks(&[Chunk { ty: 6, flags: 0, value: vec![] }]),
         "shutdown_ack" => u.inject_chunks(&[Chunk { ty: 8, flags: 0, value: vec![] }]),
@@ -972,6 +1044,26 @@ async fn uut_case(cause: &'static str) -> (serde_json::Value, Option<String>) {
             u.inject_chunks(&[Chunk { ty: 7, flags: 0, value: vec![] }]);
             tokio::time::sleep(Duration::from_millis(50)).await;
             u.inject_chunks(&[Chunk { ty: 14, flags: 0, value: vec![] }])
+        }
+        // a graceful shutdown by the peer while DATA of the endpoint is still un-SACKed (the scripted peer has
+        // acknowledged nothing): SHUTDOWN (repeated like a T2-shutdown timer would), SHUTDOWN ACK expected within
+        // the bound, only then SHUTDOWN COMPLETE -- as a real peer would do it
+        "shutdown_with_unacked_data" => {
+            let cum = u.uut_initial_tsn.wrapping_sub(1).to_be_bytes().to_vec();
+            let mut acked = false;
+            let mut data_seen = 0usize;
+            for _round in 0..4 {
+                u.inject_chunks(&[Chunk { ty: 7, flags: 0, value: cum.clone() }]);
+                let deadline = Instant::now() + Duration::from_millis(500);
+                while Instant::now() < deadline && !acked {
+                    if let Some(pk) = u.next_packet(Duration::from_millis(100)).await {
+                        for c in &pk.chunks { if c.ty == 8 { acked = true; } if c.ty == 0 { data_seen += 1; } }
+                    }
+                }
+                if acked { break; }
+            }
+            shutdown_note = Some(format!("SHUTDOWN ACK {} (DATA chunks of the endpoint seen un-SACKed meanwhile: {}, buffered {} B)", if acked { "received" } else { "NOT received within 2 s / 4 SHUTDOWNs" }, data_seen, u.sctp.buffered_amount()));
+            if acked { u.inject_chunks(&[Chunk { ty: 14, flags: 0, value: vec![] }]); } else { shutdown_unacked = true; }
         }
         "local_close" => u.sctp.close(),
         "close_twice" => { u.sctp.close(); u.sctp.close(); }
@@ -988,6 +1080,7 @@ async fn uut_case(cause: &'static str) -> (serde_json::Value, Option<String>) {
     let mut fails = vec![];
     let res = match &r { Ok(Ok((_, e))) => e.clone(), Ok(Err(_)) => "sender task failed".into(), Err(_) => "STILL PARKED".into() };
     if !parked { fails.push("sender never parked (scenario invalid)".to_string()); }
+    if shutdown_unacked { fails.push("peer SHUTDOWN with DATA of the endpoint still un-SACKed was not answered with SHUTDOWN ACK (4 SHUTDOWNs, 2 s)".to_string()); }
     if r.is_err() { fails.push(format!("sender parked on a zero window did not return within {} ms after {}", ms(CALL_BOUND), cause)); }
     let mut per_chan = vec![];
     for dc in &u.strong {
@@ -1004,9 +1097,12 @@ async fn uut_case(cause: &'static str) -> (serde_json::Value, Option<String>) {
         if evs.iter().any(|e| matches!(e, DataChannelEvent::Close)) { fails.push(format!("channel {} observed another Close after the association had ended", dc.id)); }
     }
     let reason = u.sctp.close_reason();
+    if cause == "shutdown_with_unacked_data" && reason.as_deref() != Some("REMOTE_SHUTDOWN") {
+        fails.push(format!("close reason after the peer's graceful shutdown is {:?} (want REMOTE_SHUTDOWN)", reason));
+    }
     let (r2, d2) = timed(u.sctp.send_data(0, b"late"), CALL_BOUND).await;
     match r2 { None => fails.push("send_data after the end did not return".into()), Some(Ok(())) => fails.push("send_data after the end returned Ok".into()), _ => {} }
-    let desc = json!({"sctp_level": cause, "sender": res, "sender_release_ms": lat, "close_reason": reason, "channels": per_chan, "send_after_end_ms": ms(d2)});
+    let desc = json!({"sctp_level": cause, "sender": res, "sender_release_ms": lat, "close_reason": reason, "channels": per_chan, "send_after_end_ms": ms(d2), "shutdown": shutdown_note});
     (desc, if fails.is_empty() { None } else { Some(fails.join("; ")) })
 }
 
@@ -1027,6 +1123,10 @@ fn scenarios(tier: &str, seed: u64) -> Vec<Scenario> {
         (MediaFlowing, vec![Close, Drop, CloseNotify, Abort, RaceCloseNotify]),
         (PeerChannelOpen, vec![Close, Drop, CloseThenDrop, CloseNotify, Abort, IceStop, IceStopThenClose, PeerDrop, RaceCloseNotify]),
         (ThreeChannelsOpen, vec![Blocked3ThenIceStop, Blocked3ThenCloseNotify, Blocked3ThenAbort, Close, Drop]),
+        (SipSrtpOffer, vec![Close, Drop, CloseTwice, CloseThenDrop]),
+        (SipRtpOffer, vec![Close, Drop, CloseThenDrop]),
+        (SipSrtpConnected, vec![Close, Drop, CloseTwice, CloseThenDrop, PeerClose]),
+        (SipRtpConnected, vec![Close, Drop, CloseThenDrop, IceStopThenClose]),
         (JustConnected, vec![Close, Drop, CloseThenDrop, PeerClose]),
         (JustConnectedMedia, vec![Close, Drop, PeerClose]),
         (RtpCreated, vec![Close, Drop]),
@@ -1095,7 +1195,7 @@ fn main() {
     let rt = tokio::runtime::Builder::new_multi_thread().worker_threads(2).enable_all().build().unwrap();
     let mut uut_results = vec![];
     let mut uut_setup_failed = 0usize;
-    for cause in ["abort", "shutdown_ack", "shutdown_complete", "dtls_close_notify", "local_close", "close_twice", "close_channel_then_abort"] {
+    for cause in ["abort", "shutdown_ack", "shutdown_complete", "dtls_close_notify", "local_close", "close_twice", "close_channel_then_abort", "shutdown_with_unacked_data"] {
         // the scripted peer's handshake helper panics when the endpoint does not answer in time (machine under
         // load): retry, then report the case as not set up rather than crashing the driver
         let mut done = false;
@@ -1183,7 +1283,7 @@ fn main() {
     // more than a few scenarios that cannot be set up means the harness is not measuring anything
     if uut_setup_failed > 2 {
         out.push(vh::Case { term: "-".into(), key: "uut-setup".into(), desc: json!({"sctp_level_setup_failed": uut_setup_failed}),
-            oracle_fail: Some(format!("{} of 7 SCTP-level cases could not be set up (scripted peer handshake)", uut_setup_failed)), known: None, nontrivial: false, kind: "harness".into() });
+            oracle_fail: Some(format!("{} of 8 SCTP-level cases could not be set up (scripted peer handshake)", uut_setup_failed)), known: None, nontrivial: false, kind: "harness".into() });
     }
     if setup_failed * 5 > n {
         out.push(vh::Case { term: "-".into(), key: "setup".into(), desc: json!({"setup_failed": setup_failed, "of": n}),
